@@ -476,7 +476,10 @@ def fresh_device_request(ctx, name="dev", kinds=("none", "str", "int", "device",
                 ctx.assume(f)
         # torch device type names (TRUSTED): the only type names containing 'cpu' / 'cuda' are 'cpu' / 'cuda'; none contains ':'
         ctx.assume(z3.And(z3.Implies(z3.Contains(ty.t, SV("cpu")), ty.t == SV("cpu")), z3.Implies(z3.Contains(ty.t, SV("cuda")), ty.t == SV("cuda")),
-                          z3.Not(z3.Contains(ty.t, SV(":")))))
+                          z3.Not(z3.Contains(ty.t, SV(":"))), M.LOWER(ty.t) == ty.t))  # ... and they are lower case
+        if idx is not None:
+            full = z3.Concat(ty.t, SV(":"), M.ISTR(idx.t))
+            ctx.assume(z3.And(M.LOWER(full) == full, full != SV("cpu")))
         return DevVal(ty, idx)
     return Leaf(ctx.fresh(name + "_other", "int"))
 
@@ -587,10 +590,15 @@ def vd_ensures(s):
 
 
 def vd_rejected(s, loose=None):
-    """unavailable or malformed  <=>  rejected (by some exception).  At call sites the code-faithful (substring) variant is used."""
+    """unavailable or malformed  <=>  rejected (by some exception).
+    Proved for the real code:  rejected => strict-rejected  and  accepted => accepted under substring matching.  Requests in the gap
+    (accepted under substring matching, malformed under exact matching: the open finding) may go either way at call sites."""
     env = M.env_of(s.ctx)
-    loose = (s.mode == "apply") if loose is None else loose
-    rq = dev_request(s.dev, env, loose)
+    if loose is None and s.mode == "apply":
+        strict, lo = vd_rejected(s, loose=False), vd_rejected(s, loose=True)
+        gap_choice = s.ctx.fresh("gap_request_rejected", "bool").t
+        return z3.Or(lo, z3.And(strict, gap_choice))
+    rq = dev_request(s.dev, env, bool(loose))
     return z3.Not(z3.And(rq["wf"], vd_available(rq, env)))
 
 
@@ -609,7 +617,6 @@ class DeviceRejected(Exception):
 def vd_contract(kinds):
     return Contract(f"{CFG}:validate_device", setup=unpruned(lambda ctx: vd_setup(ctx, kinds)), ensures=vd_ensures, result=vd_result,
                     raises={Exception: vd_rejected},
-                    on_raise=lambda s, E: [(f"[{s.case.split(':')[0]}]code-faithful:rejected=>unavailable-or-malformed(substring-matching)", vd_rejected(s, loose=True))],
                     note="request kinds " + ",".join(kinds))
 
 
@@ -668,7 +675,11 @@ def ckv_is_device(s):
 
 def ckv_rejected(s, loose=None):
     env = M.env_of(s.ctx)
-    loose = (s.mode == "apply") if loose is None else loose
+    if loose is None and s.mode == "apply":
+        # call sites: see vd_rejected (requests in the substring-matching gap may go either way)
+        strict, lo = ckv_rejected(s, loose=False), ckv_rejected(s, loose=True)
+        return z3.Or(lo, z3.And(strict, s.ctx.fresh("gap_request_rejected", "bool").t))
+    loose = bool(loose)
     if isinstance(s.val, (SymDict, ItemsMap)):
         return z3.BoolVal(False) if loose else ckv_is_device(s)  # a mapping is not a device request
     rq = dev_request(s.val, env, loose)
@@ -739,7 +750,6 @@ def ckv_contract(kinds, other_keys):
     return Contract(f"{CFG}:check_key_val", setup=unpruned(lambda ctx: ckv_setup(ctx, kinds, other_keys)),
                     ensures=lambda s: ckv_ensures(s) if s.mode == "apply" else [(tag(s) + a, b) for a, b in ckv_ensures(s)], result=ckv_result,
                     raises={Exception: ckv_rejected},
-                    on_raise=lambda s, E: [(tag(s) + "code-faithful:rejected=>unavailable-or-malformed(substring-matching)", ckv_rejected(s, loose=True))],
                     note="device request kinds " + ",".join(kinds) + ("; plus every non-device key" if other_keys else ""))
 
 
@@ -821,7 +831,11 @@ def init_steps(s):
 
 
 def item_rejected(s, k, v):
-    return ckv_rejected(NS(key=k, val=v, ctx=s.ctx, mode="apply"))
+    """Caller-side view of a device request inside set()/set_device()/update_defaults():
+    raising path: the request is unavailable or malformed under exact matching; normal return: it was acceptable under substring matching
+    (between the two lies the open finding; see vd_rejected)."""
+    normal_return = hasattr(s, "result")
+    return ckv_rejected(NS(key=k, val=v, ctx=s.ctx, mode="verify"), loose=normal_return)
 
 
 def init_raise_cond(s):
@@ -912,7 +926,7 @@ def init_on_raise(s, E):
     out = []
     if len(s.items) == 1 and not steps:
         k, v = s.items[0]
-        out.append(("rejected-request-leaves-the-store-unchanged", implies(item_rejected(s, k, v), AND(cfg.tree() == s.old.tree, cfg.root.writes == s.old.writes))))
+        out.append(("rejected-request-leaves-the-store-unchanged", AND(cfg.tree() == s.old.tree, cfg.root.writes == s.old.writes)))
     if s.shape == "not-a-mapping":
         out.append(("store-unchanged", AND(cfg.tree() == s.old.tree, cfg.root.writes == s.old.writes)))
     return out
@@ -968,7 +982,7 @@ def sd_snapshot(s):
 
 
 def sd_rejected(s):
-    return ckv_rejected(NS(key="device", val=s.dev, ctx=s.ctx, mode="apply"))
+    return item_rejected(s, "device", s.dev)
 
 
 def sd_ensures(s):
@@ -1440,7 +1454,7 @@ def ud_ensures(s):
 def ud_rejected(s):
     if s.shape != "device":
         return z3.BoolVal(False)
-    return ckv_rejected(NS(key="device", val=s.items[0][1], ctx=s.ctx, mode="apply"))
+    return item_rejected(s, "device", s.items[0][1])
 
 
 def ud_contract(shapes):
